@@ -102,6 +102,18 @@ def _run_instance(args):
             if ob["verdict"] != "sat":
                 continue
             rec = dict(name=ob["name"], path=ob["path"], model=ob["model"], reproduced=False, observed=None)
+            if ob["name"].startswith("no_undocumented_exception/"):
+                want = ob["name"].split("/", 1)[1]
+                try:
+                    core.run_concrete(inst.fn, dict(ob["model"]), raises=inst.raises)
+                    rec["observed"] = "the real code did not raise at the model"
+                except core.SkipSample as e:
+                    rec["observed"] = f"model outside the concrete domain: {e}"
+                except Exception as e:
+                    rec["observed"] = f"{type(e).__name__}: {e}"
+                    rec["reproduced"] = type(e).__name__ == want
+                out["replays"].append(rec)
+                continue
             try:
                 conc = core.run_concrete(inst.fn, dict(ob["model"]), raises=inst.raises)
                 hits = [c for c in conc if c[0] == ob["name"] or _base(c[0]) == _base(ob["name"])]
